@@ -1,4 +1,4 @@
-import Lt.RS2
+import RedisGoModel.Raft.RS2
 /-! Prototype: L1 — a handler-level model shaped like etcd's `raft.Step` (safety projection, PreVote/CheckQuorum off,
     flow control abstracted) — and a forward simulation to the abstract protocol L0 of RS/RS2, so that the five safety
     theorems hold for every reachable L1 state. -/
